@@ -6,13 +6,13 @@ import gen
 from engine import History, parse_snapshot, split_line, present, data_bytes
 
 TRUSTED_BASE = [
-    "Coq 8.16.1 kernel incl. its VM (vm_compute in Examples/witnesses); no native_compute",
-    "axioms: none (every Print Assumptions must answer 'Closed under the global context')",
-    "hand-written Gallina model coq/theories/{Base,Text,Hex,Label,Sodg,Esort,Print,Export,Slice,Merge,Serial,Script}.v, tied to /repo by the correspondence check (differential testing, not proof)",
-    "extraction: ExtrOcamlBasic only (bool, option, unit, list, prod, sumbool, sumor -> OCaml built-ins; andb/orb inlined); nat/positive/N/Z stay inductive; OCaml 4.13.1 ocamlopt",
-    "unverified glue: model/conv.ml, model/modeldrv.ml, harness/src/main.rs, lib/*.py",
-    "modelled, not verified: emap/micromap/microstack semantics, bincode 1.3.3, serde derive layout, regex, str::trim/split/from_str, hex::decode, xml-builder, itertools::sorted, slice indexing, HashMap/HashSet as sets",
-    "rustc/cargo stable, dev profile (debug assertions and overflow checks on)",
+    "Coq 8.16.1 kernel incl. its VM (vm_compute in Examples/witnesses only); no native_compute; coqchk -o on the property file in the thorough tier",
+    "axioms: none (every Print Assumptions must answer 'Closed under the global context'; no Axiom/Parameter/Admitted/admit, no Program/Equations, scanned on every run)",
+    "hand-written Gallina model coq/theories/{Base,Text,Hex,HexMore,Label,Sodg,Esort,Print,Export,Slice,Merge,Serial,Script}.v and reference model Spec.v/SpecDec.v, tied to /repo by the correspondence check (differential testing on generated histories, corpus and exhaustive tiny-domain tours; not proof)",
+    "extraction: ExtrOcamlBasic only (bool, option, unit, list, prod, sumbool, sumor -> OCaml built-ins; andb/orb inlined); nat/positive/N/Z stay inductive; OCaml 4.13.1 ocamlopt; cross-checked against vm_compute on 120 histories at every model build (tools/xcheck.py)",
+    "unverified glue: model/conv.ml, model/modeldrv.ml (op parsing, tabulation of the reference state, bfs tour), harness/src/main.rs, lib/*.py (generators, tracker, snapshot parsing, abs_state, oracles, shrinking, audit)",
+    "modelled, not verified: emap/micromap/microstack semantics (incl. emap's private high-water mark), bincode 1.3.3, serde derive layout, regex, str::trim/split/from_str, hex::decode, xml-builder (no attribute escaping modelled), itertools::sorted, slice indexing, String::from_utf8, HashMap/HashSet as sets; Sodg::join() is not modelled (Unmodelled)",
+    "rustc/cargo stable, dev profile (debug assertions and overflow checks on); verif_snapshot() hook (cargo feature verif) as the window on the internal state",
 ]
 
 CORE_OPS = {"NEW", "ADD", "BIND", "PUT", "DATA", "NEXT", "KID", "KIDS", "KEYS", "SNAP", "CLONE"}
@@ -21,7 +21,8 @@ BLANK = {"branch": 0, "pers": "E", "data": "B0000000000000000:0", "edges": []}
 
 
 def slot(snap, v):
-    return snap["V"].get(v, BLANK)
+    # a slot removed by merge()'s join() is listed as "-": it holds no vertex
+    return snap["V"].get(v) or BLANK
 
 
 class Walk:
@@ -369,7 +370,7 @@ def hx_from_vec(bs):
 def hex_shapes(rng, maxlen=10, extra_random=0):
     shapes = []
     for n in range(maxlen + 1):
-        variants = [bytes(range(1, n + 1)), bytes(rng.below(256) for _ in range(n))]
+        variants = [bytes(range(1, n + 1)), bytes(rng.below(256) for _ in range(n)), bytes(n), bytes([0xFF] * n)]
         for _ in range(extra_random):
             variants.append(bytes(rng.below(256) for _ in range(n)))
         for bs in variants:
@@ -570,6 +571,12 @@ class C16(Prop):
         for a in shapes:
             for b in shapes:
                 ops.append("HEXCONCAT %s %s" % (a, b))
+        # long operands (length fields of more than one byte) against every short shape, both ways
+        longs = ["V" + bytes(rng.below(256) for _ in range(n)).hex() for n in (16, 17, 255, 256, 300)]
+        for a in longs:
+            for b in shapes + longs:
+                ops.append("HEXCONCAT %s %s" % (a, b))
+                ops.append("HEXCONCAT %s %s" % (b, a))
         return batches(ops, 3000, "c16-")
 
     @staticmethod
